@@ -103,6 +103,12 @@ def Rep (dotu : Bool) (m : Msg) : Prop :=
   | .rstat d | .twstat _ d => (stat dotu d).length + 2 < 65536
   | _ => True
 
+instance (dotu : Bool) (m : Msg) : Decidable (RepW dotu m) := by
+  unfold RepW; cases m <;> simp only <;> infer_instance
+
+instance (dotu : Bool) (m : Msg) : Decidable (Rep dotu m) := by
+  unfold Rep; cases m <;> simp only <;> infer_instance
+
 theorem Rep.w {dotu : Bool} {m : Msg} (h : Rep dotu m) : RepW dotu m := h.1
 
 end G9.Spec
